@@ -4,7 +4,7 @@
    implementation they are established by the correspondence runs only (see DESIGN.md, C11 "partial"). *)
 From Coq Require Import QArith List ZArith Permutation.
 Import ListNotations.
-From SedV Require Import Clamp FitCore Flags Fit3 FitModel FitModelProofs FitPerm InvarProofs.
+From SedV Require Import Clamp FitCore Flags Fit3 FitModel FitModelProofs FitPerm InvarProofs PermChi2.
 Open Scope Q_scope.
 
 (* permuting the filters together with the photometry: same (A_V, scale), same chi^2; same per-distance A_V in 3-D *)
@@ -44,6 +44,11 @@ Theorem C11_scale_chi2 : forall lg ln10 pen c, 0 < c -> (forall x, 0 < x -> lg (
   chi2_m pen (mkrows (bands_of lg ln10 raws) alaw lms) av sc.
 Proof. intros lg ln10 pen c Hc Hl. exact (scale_keeps_chi2 lg ln10 pen c Hc Hl). Qed.
 
+(* end to end: permuting the filters with the photometry leaves the chi^2 reported for the fitted (A_V, scale) unchanged *)
+Theorem C11_band_perm_fitted_chi2 : forall pen lo hi rows rows', Permutation rows rows' ->
+  let '(av, sc) := fit2_avsc lo hi rows in let '(av', sc') := fit2_avsc lo hi rows' in
+  0 < m22 rows -> 0 < det rows -> chi2_m pen rows av sc == chi2_m pen rows' av' sc'.
+Proof. exact fit2_perm_chi2. Qed.
 (* non-vacuity: a positive flag-1 band meets pos_flux and scale_raw multiplies flux and error *)
 Example C11_example :
   pos_flux {| rb_flag := 1; rb_flux := 2; rb_err := 1#10 |} /\
